@@ -579,6 +579,21 @@ def run(prog: Program) -> Results:
                 res.add("R-C03-13", (f.key, "comment window open at its start anchor", alpha(c, f.node, anonymous=True)[:60]), f.loc(c),
                         f"{f.key}: `{norm(c)[:80]}` excludes a comment that starts exactly where `{norm(a.value)}` ends: "
                         f"`{{ inherit a/* c */; }}` (no blank between the name and the comment) is rebuilt without the comment")
+    # ---------------------------------------------------------------- R-C03-14 the two halves of a split are not swapped
+    from sa import lints as _l
+    r14 = res.rule("R-C03-14", "tuple results are unpacked in the order they are returned: where a caller names its two targets after "
+                   "the *other* positions of the callee's named return tuple (`inline_x, rest = split_inline_comments(…)` while it "
+                   "returns `(remaining, inline)`), own-line and end-of-line comments change places", floor=80)
+    for f in prog.all_functions():
+        if not f.module.startswith("nix_manipulator/expressions/"):
+            continue
+        r14.instances += 1
+        bad = _l.swapped_unpacks(prog, f)
+        r14.ob(not bad, None if not bad else {"site": f.key, "unpack": [norm(a)[:60] for a, _w in bad]})
+        for a, why in bad:
+            res.add("R-C03-14", (f.key, "tuple unpacked in the opposite order", norm(a.value.func)), f.loc(a),
+                    f"{f.key}: `{norm(a)[:70]}` but {why}: the end-of-line comments are treated as own-line ones and vice versa — their order "
+                    f"in the output is reversed and a `#` comment can swallow the next one")
     res.tables.append(f"sa/tables/grammar.py: {len(PRODUCTIONS)} productions, {len(GENERIC_CLASSES)} generic walkers")
     res.assumptions = ["relative order of two comments routed into different slots of the same gap is a value-level fact and is not decided"]
     return res
